@@ -271,6 +271,11 @@ func (fc *FnCtx) execStore(st *State, x *ssa.Store) {
 	fc.guardCheck(st, a, true, x.Pos())
 	fc.store(st, a, vt)
 	fc.assumeAfter(st, a)
+	// `after_assign assign NAME: ghost X = E | assert E | ...`: ghost bookkeeping attached to the
+	// assignment of a local (e.g. the consumption of a received message), not to the code that follows
+	if a.Kind == aLocal && len(a.Path) == 0 {
+		fc.pointClausesV(st, "after_assign", "assign "+a.Alloc.Comment, x.Pos(), nil)
+	}
 }
 
 // assumeAfter applies `assume_after <local>: E` clauses: a labelled, unproved fact about a local,
